@@ -38,6 +38,9 @@ type Config struct {
 
 	Plan []Action `json:"plan"`
 
+	ImportChain   []ImpPipe `json:"import_chain,omitempty"`
+	ImportViaPlan bool      `json:"import_via_plan,omitempty"`
+
 	ApiOps               []ApiOp `json:"api_ops,omitempty"`
 	ApiConfigProvisioned bool    `json:"api_config_provisioned,omitempty"`
 
